@@ -293,10 +293,12 @@ fn fuzz_stage(id: &str, target: &str, seed: u64, secs: u64, jobs: usize, exe: &P
             let e = String::from_utf8_lossy(&b.stderr);
             let tail: Vec<&str> = e.lines().rev().take(12).collect();
             o.infra.push(format!("fuzz stage: `cargo +nightly fuzz build {target}` failed: {}", tail.into_iter().rev().collect::<Vec<_>>().join(" | ")));
+            o.stats = json!({"skipped": o.infra.clone()});
             return o;
         }
         Err(e) => {
             o.infra.push(format!("fuzz stage: cannot run cargo fuzz: {e}"));
+            o.stats = json!({"skipped": o.infra.clone()});
             return o;
         }
     }
@@ -381,7 +383,9 @@ fn fuzz_stage(id: &str, target: &str, seed: u64, secs: u64, jobs: usize, exe: &P
             }
         }
     }
+    let notes = o.infra.clone();
     o.stats = json!({
+        "notes": notes,
         "engine": "libFuzzer (cargo-fuzz, fork mode, sanitizer none: the engine installs jemalloc as global allocator)",
         "target": format!("harness/fuzz/fuzz_targets/{target}.rs"),
         "build_s": build_s,
@@ -557,7 +561,9 @@ fn supervisor(a: &[String]) -> i32 {
             let fo = fuzz_stage(p.id, target, seed, secs, parallel, &exe);
             merged.evaluations += fo.execs;
             merged.violations.extend(fo.violations);
-            infra.extend(fo.infra);
+            // trouble of the additional stage (no cargo-fuzz, an artifact that does not reproduce in a fresh process)
+            // is reported, but does not void what the generated search established
+            merged.infos.extend(fo.infra.iter().map(|l| format!("INFO: {l}")));
             merged.extra.insert("fuzz_stage".into(), fo.stats);
         }
     }
